@@ -3,8 +3,14 @@
 // Contracts for the log-backed accounter, read by /verif (tqv). Comment-only.
 package local
 
+// The record handed to the sink is the slice json.Marshal returned for this request
+// (lastJSON: auxiliary variable naming that result) — not a copy, a view of a reused buffer
+// or any other encoding.
 //@ func (a Accounter) Handle(response tq.Response, request tq.Request)
 //@   implements tq.Handler.Handle
 //@   ensures[C12] ghost.sinkWrites <= old(ghost.sinkWrites) + 1
 //@   ensures[C12] ghost.acctStatus == tq.AcctReplyStatusSuccess ==> (ghost.sinkWrites == old(ghost.sinkWrites) + 1 && ghost.sinkAtReply == ghost.sinkWrites)
 //@   requires a.loggerProvider != nil && a.sink != nil
+//@   modifies ghost.lastJSON
+//@   after[C12] json.Marshal : ghost.lastJSON = ret0
+//@   before[C12] acctLogger.Printf : len(arg2) == 1 && arg2[0].(bytesT) == ghost.lastJSON
